@@ -1490,6 +1490,13 @@ func (t *Torrent) NewPeer(proxy string, conn net.Conn, addr netip.AddrPort, inco
 	}
 
 	select {
+	case <-t.Done:
+		conn.Close()
+		return ErrTorrentDead
+	default:
+	}
+
+	select {
 	case t.Event <- peer.TorAddPeer{p, init}:
 		return nil
 	case <-t.Done:
